@@ -10,6 +10,7 @@
 #include <gmssl/cms.h>
 #include <gmssl/tls.h>
 #include <gmssl/rand.h>
+#include <gmssl/sm3_xmss.h>
 #include "vh.h"
 
 static SM2_KEY k1, k2; static SM9_SIGN_MASTER_KEY sm; static SM9_SIGN_KEY sk; static SM9_ENC_MASTER_KEY em; static SM9_ENC_KEY ek;
@@ -63,6 +64,8 @@ static int run_op(const char *op, uint8_t *out, size_t *outlen, uint8_t *eph, si
 		rc = cms_envelop(cms, &l, cert1, cert1len, OID_sm4_cbc, key, 16, iv, 16, OID_cms_data, msg, 40, NULL, 0, NULL, 0); if (rc == 1) { memcpy(out, cms, 64); *outlen = 64; memset(eph, 0, 64); for (size_t i = 0; i < l; i++) eph[i % 64] ^= cms[i]; *ephlen = 64; } free(cms); }
 	else if (!strcmp(op, "tls_record_iv")) { SM3_HMAC_CTX h; sm3_hmac_init(&h, msg, 32); SM4_KEY k; sm4_set_encrypt_key(&k, msg); uint8_t seq[8] = {0}, hdr[5] = {23, 3, 3, 0, 20}; uint8_t rec[256]; size_t l = 0;
 		rc = tls_cbc_encrypt(&h, &k, seq, hdr, msg, 20, rec, &l); if (rc == 1) { memcpy(out, rec, 32); *outlen = 32; memcpy(eph, rec, 16); *ephlen = 16; } }
+	else if (!strcmp(op, "sm3_xmss_keygen")) { SM3_XMSS_KEY xk; memset(&xk, 0, sizeof xk); rc = sm3_xmss_key_generate(&xk, XMSS_SM3_10);
+		if (rc == 1) { memcpy(out, xk.seed, 32); memcpy(out + 32, xk.root, 32); *outlen = 64; memcpy(eph, xk.root, 32); *ephlen = 32; sm3_xmss_key_cleanup(&xk); } }
 	else if (!strcmp(op, "rand_bytes")) { rc = rand_bytes(out, 32); if (rc == 1) { *outlen = 32; memcpy(eph, out, 32); *ephlen = 32; } }
 	return rc;
 }
